@@ -214,3 +214,114 @@ CONTRACTS[DP + "parse_preconditions"] = dict(
     modifies=["Action.preconditions[new_action]"],
     calls={"PreconditionsParser.parse": PPK},
     spec_hooks=dict(_C01_HOOKS, is_list=lambda interp, st, a: Val(SExp.is_Lst(a[0].t), "bool")))
+
+# ---- deductive: parse_functions registers every declared function under its own name with the signature parsed from its own list ------
+# Relative to the assumed contract of parse_signature (`sig_src(d)` names the token list a signature object was parsed from; bounded
+# by the c01 harnesses).  Specification = a left-to-right fold over the items of the :functions section (a later declaration of the
+# same name replaces the earlier one).
+from pyvc.sorts import OPAQUE_FUNCS as _OPQ, S as _S
+_snth, _slen, _srest1, _sfirst1 = _OPQ["snth"], _OPQ["slen"], _OPQ["srest"], _OPQ["sfirst"]
+fn_has = z3.RecFunction("fn_has", SList, _S, I, B)
+fn_src = z3.RecFunction("fn_src", SList, _S, I, SList)
+_fl, _fk, _fi = z3.Const("fn_l", SList), z3.Const("fn_k", _S), z3.Int("fn_i")
+_item = _snth(_fl, _fi - 1)
+_head_is = _sfirst1(SExp.items(_item)) == SExp.Atom(_fk)
+z3.RecAddDefinition(fn_has, [_fl, _fk, _fi], z3.If(_fi <= 0, False, z3.Or(_head_is, fn_has(_fl, _fk, _fi - 1))))
+z3.RecAddDefinition(fn_src, [_fl, _fk, _fi], z3.If(_fi <= 0, SList.Nil, z3.If(_head_is, _srest1(SExp.items(_item)), fn_src(_fl, _fk, _fi - 1))))
+_sig_src = z3.Function("sig_src", I, SList)
+FN_HOOKS = {
+    "fn_has": lambda interp, st, a: Val(fn_has(a[0].t, a[1].t, a[2].t), "bool"),
+    "fn_src": lambda interp, st, a: Val(fn_src(a[0].t, a[1].t, a[2].t), "slist"),
+    "sig_src": lambda interp, st, a: Val(_sig_src(a[0].t), "slist"),
+    "is_list": lambda interp, st, a: Val(SExp.is_Lst(a[0].t), "bool"),
+    "is_atom": lambda interp, st, a: Val(SExp.is_Atom(a[0].t), "bool"),
+    "items": lambda interp, st, a: Val(SExp.items(a[0].t), "slist"),
+    "nonempty": lambda interp, st, a: Val(z3.Not(SList.is_Nil(a[0].t)), "bool"),
+}
+_ANYERR = {"SyntaxError": "True", "KeyError": "True", "StopIteration": "True", "IndexError": "True", "TypeError": "True", "ValueError": "True"}
+CONTRACTS["lisp_parsers.parsing_utils:parse_signature"] = dict(
+    prop="C01", assumed=True, params={"parameters": "slist", "domain_types": ("ref", "dict_PDDLType")}, returns=("ref", "dict_str_ref"),
+    ensures=["fresh(result)", "sig_src(result) == parameters"], raises=dict(_ANYERR), modifies=[], spec_hooks=FN_HOOKS)
+_FN = "slen(functions_ast)"
+_WF_ITEMS = ("forall_int(lambda j: is_list(snth({l}, j)) and nonempty(items(snth({l}, j))) and is_atom(sfirst(items(snth({l}, j)))), 0, slen({l}))")
+CONTRACTS[DP + "parse_functions"] = dict(
+    prop="C01", shards=3,
+    params={"self": ("ref", "DomainParser"), "functions_ast": "slist", "domain_types": ("ref", "dict_PDDLType")},
+    locals={"functions": ("ref", "dict_PDDLFunction"), "function_name": "str"},
+    returns=("ref", "dict_PDDLFunction"), opaque_funcs=("snth", "slen", "sfirst", "srest"),
+    axioms=["forall_slist(lambda l: slen(l) >= 0)"],
+    # every item of the section is a non-empty parenthesised list whose first element is a name
+    requires=["allocated(self)", "allocated(domain_types)", _WF_ITEMS.format(l="functions_ast")],
+    ensures=[
+        "fresh(result)",
+        f"forall_str(lambda k: (k in result) == fn_has(functions_ast, k, {_FN}))",
+        f"forall_str(lambda k: implies(k in result, fresh(result[k]) and result[k].name == k and fresh(result[k].signature) and "
+        f"sig_src(result[k].signature) == fn_src(functions_ast, k, {_FN}) and result[k].stored_value == 0))"],
+    raises=dict(_ANYERR), modifies=[],
+    calls={"parse_signature": "lisp_parsers.parsing_utils:parse_signature"},
+    loops={0: dict(invariants=[
+        "fresh(functions)",
+        "forall_str(lambda k: (k in functions) == fn_has(functions_ast, k, _i))",
+        "forall_str(lambda k: implies(k in functions, fresh(functions[k]) and functions[k].name == k and fresh(functions[k].signature) and "
+        "sig_src(functions[k].signature) == fn_src(functions_ast, k, _i) and functions[k].stored_value == 0))"],
+        modifies=["dict_PDDLFunction.keys[functions]", "dict_PDDLFunction.map[functions]", "PDDLFunction.name", "PDDLFunction.signature",
+                  "PDDLFunction.stored_value", "PDDLFunction.repeating_variables"])},
+    spec_hooks=FN_HOOKS)
+
+# ---- deductive: parse_predicates (with the `(:private ...)` grouping of multi-agent domains) -------------------------------------------
+pr_has = z3.RecFunction("pr_has", SList, _S, I, B)
+pr_src = z3.RecFunction("pr_src", SList, _S, I, SList)
+_pitem = _snth(_fl, _fi - 1)
+_phead = _sfirst1(SExp.items(_pitem))
+_psub = _srest1(SExp.items(_pitem))
+_is_priv = _phead == SExp.Atom(z3.StringVal(":private"))
+z3.RecAddDefinition(pr_has, [_fl, _fk, _fi], z3.If(_fi <= 0, False,
+                    z3.If(_is_priv, z3.Or(pr_has(_fl, _fk, _fi - 1), fn_has(_psub, _fk, _slen(_psub))), z3.Or(pr_has(_fl, _fk, _fi - 1), _phead == SExp.Atom(_fk)))))
+z3.RecAddDefinition(pr_src, [_fl, _fk, _fi], z3.If(_fi <= 0, SList.Nil,
+                    z3.If(_is_priv, z3.If(fn_has(_psub, _fk, _slen(_psub)), fn_src(_psub, _fk, _slen(_psub)), pr_src(_fl, _fk, _fi - 1)),
+                          z3.If(_phead == SExp.Atom(_fk), _psub, pr_src(_fl, _fk, _fi - 1)))))
+PR_HOOKS = dict(FN_HOOKS,
+                pr_has=lambda interp, st, a: Val(pr_has(a[0].t, a[1].t, a[2].t), "bool"),
+                pr_src=lambda interp, st, a: Val(pr_src(a[0].t, a[1].t, a[2].t), "slist"),
+                atom=lambda interp, st, a: Val(SExp.s(a[0].t), "str"))
+_PRED = ("ref", "Predicate")
+CONTRACTS[DP + "_parse_predicate"] = dict(
+    prop="C01", params={"self": ("ref", "DomainParser"), "predicate_ast": "slist", "domain_types": ("ref", "dict_PDDLType")}, returns=_PRED,
+    opaque_funcs=("snth", "slen", "sfirst", "srest"),
+    requires=["allocated(self)", "allocated(domain_types)", "nonempty(predicate_ast)", "is_atom(sfirst(predicate_ast))"],
+    ensures=["fresh(result)", "result.name == atom(sfirst(predicate_ast))", "result.is_positive", "fresh(result.signature)",
+             "sig_src(result.signature) == srest(predicate_ast)"],
+    raises=dict(_ANYERR), modifies=[], calls={"parse_signature": "lisp_parsers.parsing_utils:parse_signature"}, spec_hooks=PR_HOOKS)
+_PN = "slen(predicates_ast)"
+_PVAL = ("fresh({d}[k]) and {d}[k].name == k and {d}[k].is_positive and fresh({d}[k].signature) and sig_src({d}[k].signature) == {src}")
+_SUBL = "srest(items(predicate))"
+CONTRACTS[DP + "parse_predicates"] = dict(
+    prop="C01", shards=4,
+    params={"self": ("ref", "DomainParser"), "predicates_ast": "slist", "domain_types": ("ref", "dict_PDDLType")},
+    locals={"predicates": ("ref", "dict_Predicate"), "extracted_predicate": _PRED, "extracted_private_predicate": _PRED},
+    returns=("ref", "dict_Predicate"), opaque_funcs=("snth", "slen", "sfirst", "srest"),
+    axioms=["forall_slist(lambda l: slen(l) >= 0)"],
+    # every item is a non-empty list headed by a name; the members of a (:private ...) group are such lists too
+    requires=["allocated(self)", "allocated(domain_types)", _WF_ITEMS.format(l="predicates_ast"),
+              "forall_int(lambda j: implies(sfirst(items(snth(predicates_ast, j))) == sexp_atom(':private'), "
+              "forall_int(lambda m: is_list(snth(srest(items(snth(predicates_ast, j))), m)) and nonempty(items(snth(srest(items(snth(predicates_ast, j))), m))) "
+              "and is_atom(sfirst(items(snth(srest(items(snth(predicates_ast, j))), m)))), 0, slen(srest(items(snth(predicates_ast, j)))))), 0, slen(predicates_ast))"],
+    ensures=[
+        "fresh(result)",
+        f"forall_str(lambda k: (k in result) == pr_has(predicates_ast, k, {_PN}))",
+        "forall_str(lambda k: implies(k in result, " + _PVAL.format(d="result", src=f"pr_src(predicates_ast, k, {_PN})") + "))"],
+    raises=dict(_ANYERR), modifies=[],
+    calls={"self._parse_predicate": DP + "_parse_predicate"},
+    loops={
+        0: dict(invariants=[
+            "fresh(predicates)",
+            "forall_str(lambda k: (k in predicates) == pr_has(predicates_ast, k, _i))",
+            "forall_str(lambda k: implies(k in predicates, " + _PVAL.format(d="predicates", src="pr_src(predicates_ast, k, _i)") + "))"],
+            modifies=["dict_Predicate.keys[predicates]", "dict_Predicate.map[predicates]", "Predicate.name", "Predicate.signature", "Predicate.is_positive"]),
+        1: dict(invariants=[
+            "fresh(predicates)",
+            f"forall_str(lambda k: (k in predicates) == (pr_has(predicates_ast, k, _i0) or fn_has({_SUBL}, k, _i)))",
+            "forall_str(lambda k: implies(k in predicates, " + _PVAL.format(
+                d="predicates", src=f"(fn_src({_SUBL}, k, _i) if fn_has({_SUBL}, k, _i) else pr_src(predicates_ast, k, _i0))") + "))"],
+            modifies=["dict_Predicate.keys[predicates]", "dict_Predicate.map[predicates]", "Predicate.name", "Predicate.signature", "Predicate.is_positive"])},
+    spec_hooks=dict(PR_HOOKS, sexp_atom=lambda interp, st, a: Val(SExp.Atom(a[0].t), "sexp")))
